@@ -297,6 +297,9 @@ class Evaluator:
         d = getattr(base, "__dict__", None)
         if isinstance(d, dict) and n.attr in d and not n.attr.startswith("__"):
             return d[n.attr]  # plain record supplied by the rule's sample domain
+        if isinstance(base, (int, float, str, bytes, list, dict, set, frozenset, type(None))) or (isinstance(base, tuple) and not hasattr(base, "_fields")):
+            if not hasattr(base, n.attr):
+                raise Raised("AttributeError")   # a value of a built-in type has no such attribute: the program raises here
         if getattr(type(base), "_fold_ok", False) and not n.attr.startswith("__") and n.attr in vars(type(base)) \
                 and not callable(vars(type(base))[n.attr]):
             return vars(type(base))[n.attr]  # class-level data attribute of a sample-domain class
